@@ -5,6 +5,7 @@ import LocustModel.Lemmas.C04Tree
 import LocustModel.Lemmas.C04Groups
 import LocustModel.Lemmas.C04Spec
 import LocustModel.Lemmas.C04Bridge
+import LocustModel.Lemmas.C04Lex3
 /-
   C04 — aggregates are computed per distinct group, once, over all rows.   PROPERTY THEOREMS.
 
@@ -247,6 +248,51 @@ example : NodesInRng .sum [[(0, some 5)], [(0, some 1), (3, none)]] (.node (.lea
   · show InRng ([[(0, some 5)], [(0, some 1), (3, none)]].getD 0 []); decide
   · show InRng ([[(0, some 5)], [(0, some 1), (3, none)]].getD 1 []); decide
   · rw [e]; decide
+
+/-! ### D2. several grouping columns (partition / subpartition / merge_deduplicate_partitioned / merge_drop) -/
+
+/-- merge_deduplicate's MergeOp script for strictly ascending inputs is the canonical one (`specOps`: smaller key
+    first, a common key = TakeLeft then MergeRight) -/
+theorem C04_dedup_ops (kl kr : List Int) (hl : StrictAsc kl) (hr : StrictAsc kr) :
+    (mergeDedup false none kl kr).2 = specOps kl kr := dedup_ops kl kr hl hr
+
+/-- **Two grouping columns, one merge.** For lexicographically strictly ascending key rows (any number below the
+    2^32 of `partition`'s u32 run counters) partition + merge_deduplicate_partitioned + merge_drop yield exactly the
+    canonical script and the decoded sorted union of the order-embedded keys: every distinct key PAIR once, ascending. -/
+theorem C04_two_columns_merge (A B : List (Int × Int)) (hA : LexAsc A) (hB : LexAsc B) (iA : SndI64 A) (iB : SndI64 B)
+    (hlen : A.length + B.length < 4294967295) :
+    mergeKeys [A.map (·.1), A.map (·.2)] [B.map (·.1), B.map (·.2)] =
+      some ([(specKeys (A.map enc2) (B.map enc2)).map dec2fst, (specKeys (A.map enc2) (B.map enc2)).map dec2snd],
+            specOps (A.map enc2) (B.map enc2)) := mergeKeys_two A B hA hB iA iB hlen
+
+example : mergeKeys [[1, 2], [5, 0]] [[1, 1], [5, 7]] = some ([[1, 1, 2], [5, 7, 0]], [.takeLeft, .mergeRight, .takeRight, .takeLeft]) := by
+  decide
+
+/-- **Two grouping columns, any merge tree**: the result is the decoded image of the same tree over the
+    order-embedded one-column partial results (hence all one-column theorems transfer). -/
+theorem C04_two_columns_tree (op : Agg) (leaves : List (List (Int × Int) × List Int)) (t : Tree)
+    (wf : ∀ l ∈ leaves, WF2 l.1 l.2) (hv : ∀ i ∈ t.leaves, i < leaves.length)
+    (hsize : treeRows leaves t < 4294967295) :
+    evalTree op (leaves.map fun l => part2 l.1 l.2) t =
+      decodeRes (evalTree op (leaves.map fun l => part1 l.1 l.2) t) :=
+  (evalTree_two op leaves t wf hv hsize).1
+
+/-- **Bracketing independence with two grouping columns** (same hypothesis as with one column: no partial aggregate
+    of either tree leaves i64 or equals the sentinel). -/
+theorem C04_partition_indep_two_columns (op : Agg) (leaves : List (List (Int × Int) × List (Option Int)))
+    (t1 t2 : Tree) (wf : ∀ l ∈ leaves, LexAsc l.1 ∧ SndI64 l.1 ∧ l.2.length = l.1.length)
+    (hl : t1.leaves = t2.leaves) (hv : ∀ i ∈ t1.leaves, i < leaves.length)
+    (hs1 : treeRows (leaves.map fun l => (l.1, l.2.map encV)) t1 < 4294967295)
+    (hs2 : treeRows (leaves.map fun l => (l.1, l.2.map encV)) t2 < 4294967295)
+    (h1 : NodesInRng op (leaves.map xpartOf) t1) (h2 : NodesInRng op (leaves.map xpartOf) t2) :
+    evalTree op (leaves.map fun l => part2 l.1 (l.2.map encV)) t1 =
+      evalTree op (leaves.map fun l => part2 l.1 (l.2.map encV)) t2 :=
+  partition_indep_two op leaves t1 t2 wf hl hv hs1 hs2 h1 h2
+
+example : LexAsc [(1, 5), (2, 0)] ∧ SndI64 [(1, 5), (2, 0)] := by
+  constructor
+  · simp [LexAsc]
+  · intro p hp; simp at hp; rcases hp with rfl | rfl <;> decide
 
 /-! ### E. top level: groups of a partitioned table -/
 
